@@ -1,7 +1,12 @@
 (* C04 — Every represented instance of a rule's left side fires.
-   This is a completeness statement about the matcher over the whole e-graph; it is NOT proved for the
-   model (it needs the canonical-shape / group-variant invariants of the e-graph model, which are not
-   established).  PROVED about the model of the matcher and of the applier (EGraph/RewriteFacts.v), the
+   SECOND SESSION (EGraph/MatchComplete.v): FIRING is proved - for every substitution the searcher returns for a rule
+   without condition, after apply_rewrites both instantiated sides are represented, covered and EQUAL
+   (C04_every_match_fires); depth-one COMPLETENESS of the matcher is proved from one e-graph-side hypothesis repr_hyp
+   (a represented node is a renamed group variant of a listed node of its class; tested on all candidates of 14
+   states, not proved) and backed by a verified checker (C04_checked_depth_one_complete); nested patterns / repeated
+   variables are complete only outside the documented limitations (counterexamples reproduce redundancy_matching_bug2/3
+   and show that a bound slot name bound twice or also used free breaks completeness at depth one).
+   Before that, the following was proved:  PROVED about the model of the matcher and of the applier (EGraph/RewriteFacts.v), the
    parts of the firing that do not depend on those invariants:
    - for every substitution the searcher returns for the left side, the applier can instantiate the
      right side whenever its variables occur on the left (it never reaches the "unbound variable" panic),
@@ -34,3 +39,29 @@ Theorem C04_searchers_independent : forall p s l s', ematch_all p s = Ok (l, s')
   unionfind s' = unionfind s /\ classes s' = classes s /\ hashcons s' = hashcons s /\ pending s' = pending s.
 Proof. exact ematch_all_state. Qed.
 Print Assumptions C04_searchers_independent.
+
+From SE Require Import EGraph.AddCoversFacts EGraph.UnionFindFacts EGraph.MatchDefs EGraph.Mod4Facts EGraph.ProgressFacts EGraph.MatchComplete.
+
+Theorem C04_every_match_fires : forall rl s b1 s1,
+  inv3 s -> kids_ok s -> m4 s -> pat_below (Model.ctr s) (r_lhs rl) -> r_cond rl = None ->
+  apply_rewrites [rl] s = Ok (b1, s1) ->
+  exists l s', ematch_all (r_lhs rl) s = Ok (l, s') /\
+    (forall sb, List.In sb l ->
+       exists t a b t1 t2, qstep s t /\ pattern_subst (r_lhs rl) sb t = Ok (a, t1) /\
+         pattern_subst (r_rhs rl) sb t1 = Ok (b, t2) /\
+         covers s1 a /\ covers s1 b /\ eg_eq s1 a b = Ok true).
+Proof. exact apply_rewrites_fires. Qed.
+Print Assumptions C04_every_match_fires.
+
+Theorem C04_depth_one_complete : forall s nd vs n theta,
+  List.NoDup vs -> List.length vs = List.length (app_occ nd) -> pat_below (Model.ctr s) (d1_pat nd vs) ->
+  instance_of nd n = Some theta -> repr_hyp s n ->
+  complete_for s (d1_pat nd vs) theta (List.combine vs (app_occ n)).
+Proof. exact d1_complete_from_repr. Qed.
+Print Assumptions C04_depth_one_complete.
+
+Theorem C04_checked_depth_one_complete : forall s nd vs, complete_okb s nd vs = true ->
+  forall n theta, List.In n (d1_candidates s) -> instance_of nd n = Some theta ->
+  complete_for s (d1_pat nd vs) theta (List.combine vs (app_occ n)).
+Proof. exact complete_okb_sound. Qed.
+Print Assumptions C04_checked_depth_one_complete.
